@@ -12,8 +12,15 @@ ASSUMPTIONS = [
 OBLIGATIONS = {
     'O7.1': {'engine': 'B', 'title': 'key range of several files is their hull', 'run': version.o7_1_key_range,
              'confirm': version.o7_1_confirm, 'witness_ok': version.o7_1_witness_ok},
+    'O1.3': {'engine': 'B', 'title': 'binary search over a sorted disjoint level finds the first file whose largest key is >= target', 'run': version.o1_3_find_file,
+             'confirm': version.o1_3_confirm, 'witness_ok': version.o1_3_witness_ok},
+    'O10.3': {'engine': 'B', 'title': 'file comparator (smallest key, then file number) is a total order', 'run': version.o10_3_comparator,
+              'confirm': version.o10_3_confirm, 'witness_ok': version.o10_3_witness_ok},
+    'O7.2': {'engine': 'B', 'title': 'overlapping compaction inputs: superset of the overlapping files, closed under level-0 range expansion', 'run': version.o7_2_overlapping_inputs,
+             'confirm': version.o7_2_confirm, 'witness_ok': version.o7_2_witness_ok},
 }
 
 PROPERTIES = {
-    'C07': {'obligations': ['O7.1']},
+    'C07': {'obligations': ['O7.1', 'O7.2']},
+    'C10': {'obligations': ['O7.1', 'O1.3', 'O10.3']},
 }
